@@ -567,6 +567,65 @@ def fam_plain(rng, idx):
     return b.finish("plain", idx, top)
 
 
+class RawSchema:
+    """a module given as YANG text, for requests only the harness sees (schema registration): `dsl()` is just the key the harness files
+    the schema under, no model reads it"""
+
+    def __init__(self, name, yang_text):
+        assert len(name) >= 3
+        self.name, self._yang, self.nodes, self.top = name, yang_text, [], []
+
+    def dsl(self):
+        return ("module %s" % self.name).encode()
+
+    def xdsl(self):
+        return b""
+
+    def yang(self):
+        return self._yang
+
+
+def _cg(name, body):
+    return RawSchema(name, 'module %s {\n  yang-version 1.1;\n  namespace "urn:verif:%s";\n  prefix p;\n  %s\n}\n' % (name, name, body))
+
+
+_CG_B = 'case b { leaf y { type string; } }'
+
+
+def compiler_guarantee_schemas():
+    """The schema hypotheses `FullSane` of the C02 theorems, point by point, as tiny modules lys_compile must REFUSE, and positive controls
+    it must accept: [(what, RawSchema, must_compile)]"""
+    refused = [
+        ("mandatory leaf with a default", "cgr01", 'leaf x { type string; mandatory true; default "a"; }'),
+        ("mandatory choice with a default case", "cgr02", 'choice ch { mandatory true; default a; case a { leaf x { type string; } } %s }' % _CG_B),
+        ("mandatory leaf directly in the default case", "cgr03", 'choice ch { default a; case a { leaf x { type string; mandatory true; } } %s }' % _CG_B),
+        ("list with min-elements 1 directly in the default case", "cgr04",
+         'choice ch { default a; case a { list l { key k; min-elements 1; leaf k { type string; } } } %s }' % _CG_B),
+        ("leaf-list with min-elements 1 directly in the default case", "cgr05",
+         'choice ch { default a; case a { leaf-list ll { type string; min-elements 1; } } %s }' % _CG_B),
+        ("mandatory choice directly in the default case", "cgr06",
+         'choice ch { default a; case a { choice in { mandatory true; leaf p { type string; } leaf q { type string; } } } %s }' % _CG_B),
+        ("non-presence container with a mandatory leaf in the default case", "cgr07",
+         'choice ch { default a; case a { container c { leaf x { type string; mandatory true; } } } %s }' % _CG_B),
+        ("non-presence container holding a mandatory choice in the default case", "cgr08",
+         'choice ch { default a; case a { container c { choice in { mandatory true; leaf p { type string; } leaf q { type string; } } } } %s }' % _CG_B),
+        ("non-presence container holding a list with min-elements 1 in the default case", "cgr09",
+         'choice ch { default a; case a { container c { list l { key k; min-elements 1; leaf k { type string; } } } } %s }' % _CG_B),
+        ("leaf-list with a default and min-elements 1", "cgr10", 'leaf-list ll { type string; min-elements 1; default "a"; }'),
+        ("config true node under a config false container", "cgr11", 'container c { config false; leaf x { type string; config true; } }'),
+        ("min-elements 3 with max-elements 2", "cgr12", 'leaf-list ll { type string; min-elements 3; max-elements 2; }'),
+        ("two cases with the same name in one choice", "cgr13", 'choice ch { case a { leaf x { type string; } } case a { leaf y { type string; } } }'),
+        ("two sibling data nodes with the same name, one of them inside a case", "cgr14",
+         'leaf x { type string; } choice ch { case a { leaf x { type string; } } %s }' % _CG_B),
+    ]
+    controls = [
+        ("non-presence container holding a PRESENCE container with a mandatory leaf in the default case", "cgc01",
+         'choice ch { default a; case a { container c { container q { presence "p"; leaf x { type string; mandatory true; } } } } %s }' % _CG_B),
+        ("leaf-list with 2 defaults and max-elements 2", "cgc02", 'leaf-list ll { type string; max-elements 2; default "a"; default "b"; }'),
+    ]
+    return [(w, _cg(n, b), False) for w, n, b in refused] + [(w, _cg(n, b), True) for w, n, b in controls]
+
+
 def witness_f320():
     """Witness of finding F320: `container c { presence; leaf-list ll { type string; max-elements 1; default "a"; default "b"; } }`
     and the instance with just the empty container.  More default values than max-elements: libyang (without fixes/F320.diff)
